@@ -222,3 +222,8 @@ Theorem C05_src_lfq_merge :
           (x < e "c" * e "d")%nat -> @rearr A p e (@of4 A Q) [b; n; x] = @cb_merge A (e "d") Q b n x).
 Proof. exact (@EinopsGlueScalar.einops_lfq_merge). Qed.
 Print Assumptions C05_src_lfq_merge.
+
+Theorem C05_tie_lfq_training_value :
+  forall a q : R, k_lfq_ste.k_lfq_ste R_ops (fun v : R => v) a q = q.
+Proof. exact (@ScalarGlue.glue_lfq_ste_value). Qed.
+Print Assumptions C05_tie_lfq_training_value.
